@@ -163,3 +163,51 @@ func HarnessC15Object() {
 	li, _ := o.Literal()
 	verif.Assert(nd != nil || pr != nil || li != nil, "C15/object/boxes-a-value")
 }
+
+// C15 (a'): predicate templates `"` id `"@[` anchor `]` with symbolic id and
+// anchor holes (the shortest accepted predicate is longer than the all-strings bound).
+func HarnessC15PredicateTemplate() {
+	ni := verif.Choice("idlen", verif.Param("ID", 3)+1)
+	na := verif.Choice("anchorlen", verif.Param("A", 2)+1)
+	id := verif.String("id", ni)
+	an := verif.String("an", na)
+	if verif.Param("ASCII", 0) == 1 {
+		for i := 0; i < len(id); i++ {
+			verif.Assume(id[i] < 0x80)
+		}
+		for i := 0; i < len(an); i++ {
+			verif.Assume(an[i] < 0x80)
+		}
+	}
+	tail := []string{"]", "", "\"]", "]]"}[verif.Choice("tail", 4)]
+	s := "\"" + id + "\"@[" + an + tail
+	var p *predicate.Predicate
+	var err error
+	if !noPanic("C15/predicate/no-panic", func() { p, err = predicate.Parse(s) }) {
+		return
+	}
+	verif.Reach("returned")
+	verif.Assert(!(p == nil && err == nil), "C15/predicate/value-or-error")
+	if err != nil || p == nil {
+		return
+	}
+	verif.Reach("accepted")
+	if p.Type() != predicate.Immutable {
+		return
+	}
+	pid := string(p.ID())
+	if contains(pid, "\"@[") {
+		verif.Class("id-contains-quote-at-bracket")
+	}
+	out := p.String()
+	var p2 *predicate.Predicate
+	var err2 error
+	if !noPanic("C15/predicate/reparse-no-panic", func() { p2, err2 = predicate.Parse(out) }) {
+		return
+	}
+	verif.Assert(err2 == nil, "C15/predicate/reparse-accepted")
+	if err2 == nil && p2 != nil {
+		verif.Assert(p2.ID() == p.ID() && p2.Type() == p.Type(), "C15/predicate/reparse-equal")
+		verif.Assert(p2.String() == out, "C15/predicate/reprint-stable")
+	}
+}
